@@ -3,7 +3,7 @@
     Fsx/QidMapProofs.v, Fsx/QidConc.v. *)
 From Coq Require Import NArith String List.
 From P9V Require Import Base.Str gen.ConstGen gen.FsGen Fsx.Readdir Fsx.LocalDir Fsx.Paging Fsx.ReaddirProofs
-     Fsx.QidMap Fsx.QidMapProofs Fsx.Qid Fsx.QidConc Fsx.Mode Fsx.FsGenSpec.
+     Fsx.QidMap Fsx.QidMapProofs Fsx.Qid Fsx.LocalQidStable Fsx.FsGenSpec19.
 Import ListNotations.
 Open Scope list_scope.
 Open Scope N_scope.
@@ -101,17 +101,12 @@ Proof. exact run_history_extends. Qed.
 
 (** QIDs, localfs: Readdir, Walk and GetAttr all compute
     info(stat) = (QIDType (ModeFromOS mode), localToQid (dev, ino)); the path is
-    the same on every call, whatever was looked up in between (the fallback
-    counter is a uint64 and is modelled with its wrap; the bound keeps it below 2^64) *)
-Theorem C19_qids_local : forall h1 h2 d i r r' t1 n1 t2 n2 t3 n3 t4 n4,
-  N.of_nat (length h1 + length h2) + 2 < 2 ^ 63 ->       (* fewer than 2^63 calls: the uint64 counter nextQid does not wrap *)
-  d < two64 -> i < two64 ->
-  lrun [] next0 h1 = (t1, n1) -> local_to_qid t1 n1 d i = (r, t2, n2) ->
-  lrun t2 n2 h2 = (t3, n3) -> local_to_qid t3 n3 d i = (r', t4, n4) -> r = r'.
-Proof.
-  intros h1 h2 d i r r' t1 n1 t2 n2 t3 n3 t4 n4 Hb Hd Hi R1 L1 R2 L2.
-  now apply (local_to_qid_stable_injective h1 h2 d i d i r r' t1 n1 t2 n2 t3 n3 t4 n4 Hb Hd Hi Hd Hi R1 L1 R2 L2).
-Qed.
+    the same on every call, whatever was looked up in between, from any table state (no bound needed:
+    stability does not depend on the counter, only injectivity — C20 — does) *)
+Theorem C19_qids_local : forall t1 n1 d i r t2 n2 h t3 n3 r' t4 n4,
+  local_to_qid t1 n1 d i = (r, t2, n2) -> lrun_w t2 n2 h = (t3, n3) ->
+  local_to_qid t3 n3 d i = (r', t4, n4) -> r' = r.
+Proof. exact local_to_qid_stable. Qed.
 Print Assumptions C19_qids_local.
 
 (** what the fix 1247c49 repaired (model of the earlier loop: no rewind, [<]) *)
